@@ -85,4 +85,50 @@ theorem rinv_reachable (s : St) (h : Reachable s) : RInv s := by
         exact rinv_stop s v (List.mem_of_getElem? hv) ih
       · exact ih
 
+/-! ### lookup-or-create is atomic ⇒ same name, same scheduler -/
+
+theorem lookup_cons (reg : List (Key × Nat)) (k k' : Key) (v : Nat) :
+    lookup ((k, v) :: reg) k' = if k = k' then some v else lookup reg k' := by
+  simp only [lookup, List.find?_cons]
+  by_cases h : k = k'
+  · simp [h]
+  · simp [h]
+
+/-- `GetSche` returns what is registered for the name afterwards … -/
+theorem getSche_registers (s : St) (k : Key) : lookup (getSche s k).1.reg k = some (getSche s k).2 := by
+  unfold getSche
+  split
+  · rename_i sc h; simpa using h
+  · simp [lookup_cons]
+
+/-- … and never disturbs an existing registration -/
+theorem getSche_preserves (s : St) (k k' : Key) (a : Nat) (h : lookup s.reg k' = some a) :
+    lookup (getSche s k).1.reg k' = some a := by
+  unfold getSche
+  split
+  · exact h
+  · rename_i hn
+    simp only [lookup_cons]
+    split
+    · rename_i hk; subst hk; rw [hn] at h; cases h
+    · exact h
+
+theorem getMany_registered : ∀ (ks : List Key) (s : St) (k : Key) (a : Nat),
+    (lookup s.reg k = some a → lookup (getMany s ks).1.reg k = some a) ∧
+    ((k, a) ∈ (getMany s ks).2 → lookup (getMany s ks).1.reg k = some a)
+  | [], s, k, a => by simp [getMany]
+  | k0 :: ks, s, k, a => by
+    have ih := getMany_registered ks (getSche s k0).1
+    constructor
+    · intro h
+      exact (ih k a).1 (getSche_preserves s k0 k a h)
+    · intro hm
+      simp only [getMany, List.mem_cons] at hm
+      cases hm with
+      | inl h =>
+        injection h with h1 h2
+        subst h1; subst h2
+        exact (ih _ _).1 (getSche_registers s _)
+      | inr h => exact (ih k a).2 h
+
 end Cell2v.ScheMgr
